@@ -3,13 +3,34 @@
 //
 //	<kind> <k> <op>;<op>;…  |  <res>/<dump v0>/…/<dump v(k-1)>;…
 //
-// kind is X (exhaustive small scope), B (big sets) or H (random history); k the number of
-// variables.  Ops (i, j variable indices, L a comma list of ints or "." for none):
+// kind is X (exhaustive small scope), B (big sets), H (random history) -- all three over int elements
+// -- or one of the SCALE kinds Si Sx Ss St (round 3, generators in scale.go); k the number of
+// variables.  Ops (i, j variable indices, L a comma list of ints or "." for none; an item of a list
+// may also be a run lo~hi or lo~hi~step = lo, lo+step, ... below hi):
 //
 //	new:i:L newsize:i:n nil:i clone:i:j isect:i:J range:i:L|nil keys:i:L|nil values:i:L|nil   v_i = …
 //	add:i:L addall:i:j rm:i:L rmall:i:j clear:i pop:i:X                                      mutators
 //	has:i:x hasall:i:L hasany:i:L len:i empty:i meets:i:j sub:i:j eq:i:j                     predicates
-//	slice:i:O append:i:V:O                                                                   V prefix (n = nil slice)
+//	slice:i:O append:i:V:O appendf:i:V:O                                                     V prefix (n = nil slice)
+//	hasd:i:L                                                                                 Has of every item of L, one call each
+//
+// (append gives the prefix room for two more elements, appendf room for the whole set: the in-place
+// path of Append; both are the model's Append.)
+//
+// Scale kinds.  The elements in a trace line are always int CODES; the Go element type the code runs
+// on is chosen by the second letter of the kind and the code is mapped to a value of that type by an
+// injective function that sends code 0 to the zero value of the type:
+//
+//	Si int (the code itself)      Sx int, extreme values (MinInt64, MaxInt64, -1, ... then code*0x9E37...15 mod 2^64)
+//	Ss string ("" for 0; short, long with a common prefix, multi-byte, with a NUL byte)
+//	St struct{A int; B string; C [2]int8}
+//
+// Values coming back from the implementation (Pop, Slice, Append, ranging over the map) are mapped
+// back through the table of all values handed in so far (a value never handed in prints as
+// -999999999).  In the scale kinds every list of more than 64 elements in the OUTPUT (sorted members
+// in a dump, sorted result of Slice/Append) and in the oracle field of slice/append is replaced by
+// #<digest>, digest = two polynomial hashes (mod 2^31-1, mod 2^31-19) of the SORTED codes: map order
+// is never compared.  The driver computes the same digest from the model's sorted members.
 //
 // (range:i:nil is Range of the nil iterator function, keys/values:i:nil the nil map; newsize takes
 // any int, negative and huge hints included.)
@@ -34,6 +55,7 @@ package main
 import (
 	"fmt"
 	"iter"
+	"math"
 	"reflect"
 	"slices"
 	"sort"
@@ -44,18 +66,130 @@ import (
 	"verif/harness/internal/tr"
 )
 
-type set = mapset.Set[int]
-
-const sentinel = -7777777 // never an element of any generated set
+const sentinel = -7777777 // code of the poison element: never an element of any generated set
+const unknownCode = -999999999
 const maskN = 8
+const digestOver = 64 // scale kinds: longer lists are printed as #<digest>
 
-func ptr(m set) uintptr {
+// world: the element type a case runs on.  enc maps a code to a value (injective, 0 -> zero value);
+// dec is the table of everything handed in so far (nil: T is int and the code is the value).
+type world[T comparable] struct {
+	enc   func(int) T
+	dec   map[T]int
+	scale bool
+}
+
+func (w *world[T]) e(c int) T {
+	v := w.enc(c)
+	if w.dec != nil {
+		if old, ok := w.dec[v]; ok && old != c {
+			panic(fmt.Sprintf("harness: codes %d and %d map to the same value", old, c))
+		}
+		w.dec[v] = c
+	}
+	return v
+}
+
+func (w *world[T]) d(v T) int {
+	if w.dec == nil {
+		return any(v).(int)
+	}
+	if c, ok := w.dec[v]; ok {
+		return c
+	}
+	return unknownCode
+}
+
+func (w *world[T]) es(l []int) []T {
+	out := make([]T, len(l))
+	for i, c := range l {
+		out[i] = w.e(c)
+	}
+	return out
+}
+
+func (w *world[T]) ds(l []T) []int {
+	out := make([]int, len(l))
+	for i, v := range l {
+		out[i] = w.d(v)
+	}
+	return out
+}
+
+// ints prints a list of codes; in the scale kinds a long one as its digest.
+func (w *world[T]) ints(l []int) string {
+	if w.scale && len(l) > digestOver {
+		return "#" + digest(l)
+	}
+	return tr.Ints(l)
+}
+
+// digest of a sequence of codes (callers sort first): two polynomial hashes in 31-bit fields, so
+// that the OCaml driver computes the same with native ints.
+func digest(xs []int) string {
+	const m1, p1 = 2147483647, 1000003
+	const m2, p2 = 2147483629, 1000033
+	h1, h2 := int64(7), int64(7)
+	for _, x := range xs {
+		a := (int64(x)%m1 + m1) % m1
+		b := (int64(x)%m2 + m2) % m2
+		h1 = (h1*p1 + a) % m1
+		h2 = (h2*p2 + b) % m2
+	}
+	return fmt.Sprintf("%08x%08x", h1, h2)
+}
+
+// ---- the element types of the scale kinds
+
+var extremes = []int{0, math.MinInt64, math.MaxInt64, -1, 1, math.MinInt64 + 1, math.MaxInt64 - 1, 1 << 32, -(1 << 32), 1 << 31, -(1 << 31) - 1, 1 << 53, 255, 256, -128, 1 << 62}
+
+func encExtreme(c int) int {
+	if c >= 0 && c < len(extremes) {
+		return extremes[c]
+	}
+	return int(uint64(c) * 0x9E3779B97F4A7C15)
+}
+
+func encString(c int) string {
+	if c == 0 {
+		return ""
+	}
+	s := strconv.Itoa(c)
+	switch ((c % 5) + 5) % 5 {
+	case 0:
+		return "k" + s
+	case 1:
+		return s + strings.Repeat("é", 1+((c/5)%3+3)%3)
+	case 2:
+		return "a long prefix that all of these keys have in common: " + s
+	case 3:
+		return "\x00" + s
+	}
+	return s
+}
+
+type rec struct {
+	A int
+	B string
+	C [2]int8
+}
+
+func encRec(c int) rec {
+	b := ""
+	if c&1 == 1 {
+		b = "x"
+	}
+	return rec{A: c >> 1, B: b, C: [2]int8{int8(c % 5), int8((c >> 1) % 3)}}
+}
+
+func ptr[T comparable](m mapset.Set[T]) uintptr {
 	if m == nil {
 		return 0
 	}
 	return reflect.ValueOf(m).Pointer()
 }
 
+// parseList: "." / "" = none; items are ints or runs lo~hi / lo~hi~step.
 func parseList(s string) ([]int, bool) {
 	if s == "." || s == "" {
 		return nil, true
@@ -63,6 +197,29 @@ func parseList(s string) ([]int, bool) {
 	parts := strings.Split(s, ",")
 	out := make([]int, 0, len(parts))
 	for _, p := range parts {
+		if strings.Contains(p, "~") {
+			q := strings.Split(p, "~")
+			if len(q) < 2 || len(q) > 3 {
+				return nil, false
+			}
+			lo, err1 := strconv.Atoi(q[0])
+			hi, err2 := strconv.Atoi(q[1])
+			step := 1
+			if len(q) == 3 {
+				var err3 error
+				step, err3 = strconv.Atoi(q[2])
+				if err3 != nil {
+					return nil, false
+				}
+			}
+			if err1 != nil || err2 != nil || step < 1 || hi-lo > 1<<22 {
+				return nil, false
+			}
+			for x := lo; x < hi; x += step {
+				out = append(out, x)
+			}
+			continue
+		}
 		n, err := strconv.Atoi(p)
 		if err != nil {
 			return nil, false
@@ -72,23 +229,23 @@ func parseList(s string) ([]int, bool) {
 	return out, true
 }
 
-func dump(vars []set, idx int) string {
+func dump[T comparable](w *world[T], vars []mapset.Set[T], idx int) string {
 	m := vars[idx]
 	if m == nil {
 		// still ask the nil set everything the API offers
-		if m.Len() != 0 || !m.IsEmpty() || m.Has(0) {
+		if m.Len() != 0 || !m.IsEmpty() || m.Has(w.e(0)) {
 			return "n!"
 		}
 		return "n"
 	}
-	var keys []int
+	keys := make([]int, 0, len(m))
 	for k := range m {
-		keys = append(keys, k)
+		keys = append(keys, w.d(k))
 	}
 	sort.Ints(keys)
 	var mask strings.Builder
 	for x := 0; x < maskN; x++ {
-		mask.WriteString(tr.B(m.Has(x)))
+		mask.WriteString(tr.B(m.Has(w.e(x))))
 	}
 	e := "F"
 	if m.IsEmpty() {
@@ -101,36 +258,37 @@ func dump(vars []set, idx int) string {
 			break
 		}
 	}
-	return strconv.Itoa(m.Len()) + e + ":" + mask.String() + ":" + tr.Ints(keys) + "@" + strconv.Itoa(a)
+	return strconv.Itoa(m.Len()) + e + ":" + mask.String() + ":" + w.ints(keys) + "@" + strconv.Itoa(a)
 }
 
 // poisoned reports whether a and b share storage, by mutating one and re-reading the other.
-func poisoned(a, b set) bool {
+func poisoned[T comparable](w *world[T], a, b mapset.Set[T]) bool {
 	if a == nil || b == nil {
 		return false
 	}
+	s := w.e(sentinel)
 	res := false
-	a[sentinel] = struct{}{}
-	if _, ok := b[sentinel]; ok {
+	a[s] = struct{}{}
+	if _, ok := b[s]; ok {
 		res = true
 	}
-	delete(a, sentinel)
-	b[sentinel] = struct{}{}
-	if _, ok := a[sentinel]; ok {
+	delete(a, s)
+	b[s] = struct{}{}
+	if _, ok := a[s]; ok {
 		res = true
 	}
-	delete(b, sentinel)
+	delete(b, s)
 	return res
 }
 
 // mem remembers every map address seen in the current case and keeps the maps reachable, so that a
 // new allocation can never reuse the address of a dropped map.
-type mem struct {
+type mem[T comparable] struct {
 	seen map[uintptr]bool
-	keep []set
+	keep []mapset.Set[T]
 }
 
-func (c *mem) note(ms ...set) {
+func (c *mem[T]) note(ms ...mapset.Set[T]) {
 	for _, m := range ms {
 		if m != nil && !c.seen[ptr(m)] {
 			c.seen[ptr(m)] = true
@@ -141,7 +299,7 @@ func (c *mem) note(ms ...set) {
 
 // ident: which map is r, relative to the variables as they were before the call; and does
 // poisoning agree with the address comparison?
-func (c *mem) ident(pre []set, r set) (string, bool) {
+func (c *mem[T]) ident(w *world[T], pre []mapset.Set[T], r mapset.Set[T]) (string, bool) {
 	if r == nil {
 		return "nil", false
 	}
@@ -156,7 +314,7 @@ func (c *mem) ident(pre []set, r set) (string, bool) {
 	}
 	disagree := false
 	for _, m := range pre {
-		if m != nil && poisoned(r, m) != (ptr(r) == ptr(m)) {
+		if m != nil && poisoned(w, r, m) != (ptr(r) == ptr(m)) {
 			disagree = true
 		}
 	}
@@ -169,12 +327,28 @@ func run(in string) (string, string) {
 	if len(f) < 2 {
 		return in, "?"
 	}
+	switch f[0] {
+	case "X", "B", "H":
+		return runT(&world[int]{enc: func(c int) int { return c }}, f, in)
+	case "Si":
+		return runT(&world[int]{enc: func(c int) int { return c }, scale: true}, f, in)
+	case "Sx":
+		return runT(&world[int]{enc: encExtreme, dec: map[int]int{0: 0}, scale: true}, f, in)
+	case "Ss":
+		return runT(&world[string]{enc: encString, dec: map[string]int{"": 0}, scale: true}, f, in)
+	case "St":
+		return runT(&world[rec]{enc: encRec, dec: map[rec]int{{}: 0}, scale: true}, f, in)
+	}
+	return in, "?"
+}
+
+func runT[T comparable](w *world[T], f []string, in string) (string, string) {
 	k, err := strconv.Atoi(f[1])
 	if err != nil || k < 1 || k > 8 {
 		return in, "?"
 	}
-	vars := make([]set, k)
-	c := &mem{seen: map[uintptr]bool{}}
+	vars := make([]mapset.Set[T], k)
+	c := &mem[T]{seen: map[uintptr]bool{}}
 	var ops []string
 	if len(f) >= 3 {
 		ops = strings.Split(f[2], ";")
@@ -182,21 +356,21 @@ func run(in string) (string, string) {
 	outs := make([]string, 0, len(ops))
 	newOps := make([]string, 0, len(ops))
 	for _, op := range ops {
-		nop, res := runOp(c, vars, op)
+		nop, res := runOp(w, c, vars, op)
 		c.note(vars...)
 		newOps = append(newOps, nop)
 		var sb strings.Builder
 		sb.WriteString(res)
 		for j := range vars {
 			sb.WriteString("/")
-			sb.WriteString(dump(vars, j))
+			sb.WriteString(dump(w, vars, j))
 		}
 		outs = append(outs, sb.String())
 	}
 	return f[0] + " " + f[1] + " " + strings.Join(newOps, ";"), strings.Join(outs, ";")
 }
 
-func runOp(c *mem, vars []set, op string) (nop string, res string) {
+func runOp[T comparable](w *world[T], c *mem[T], vars []mapset.Set[T], op string) (nop string, res string) {
 	nop = op
 	p := strings.Split(op, ":")
 	bad := func() (string, string) { return op, "?" }
@@ -218,9 +392,10 @@ func runOp(c *mem, vars []set, op string) (nop string, res string) {
 		return "."
 	}
 	pre := slices.Clone(vars)
+	poison := w.e(sentinel)
 	// returned: the result string of a call that returned the set r (vars[i] already updated)
-	returned := func(r set) string {
-		id, disagree := c.ident(pre, r)
+	returned := func(r mapset.Set[T]) string {
+		id, disagree := c.ident(w, pre, r)
 		c.note(r)
 		eq := "!"
 		if ptr(r) == ptr(vars[i]) {
@@ -236,11 +411,12 @@ func runOp(c *mem, vars []set, op string) (nop string, res string) {
 				res = "?"
 				return
 			}
-			vars[i] = mapset.New(l...)
+			items := w.es(l)
+			vars[i] = mapset.New(items...)
 			res = returned(vars[i])
 			// the argument slice is not retained: poison it
-			for x := range l {
-				l[x] = sentinel
+			for x := range items {
+				items[x] = poison
 			}
 		case "newsize":
 			n, err := strconv.ParseInt(arg(2), 10, 64)
@@ -248,7 +424,7 @@ func runOp(c *mem, vars []set, op string) (nop string, res string) {
 				res = "?"
 				return
 			}
-			vars[i] = mapset.NewSize[int](int(n))
+			vars[i] = mapset.NewSize[T](int(n))
 			res = returned(vars[i])
 		case "nil":
 			vars[i] = nil
@@ -267,7 +443,7 @@ func runOp(c *mem, vars []set, op string) (nop string, res string) {
 				res = "?"
 				return
 			}
-			var args []set
+			var args []mapset.Set[T]
 			for _, j := range js {
 				if j < 0 || j >= len(vars) {
 					res = "?"
@@ -278,20 +454,25 @@ func runOp(c *mem, vars []set, op string) (nop string, res string) {
 			vars[i] = mapset.Intersect(args...)
 			res = returned(vars[i])
 		case "range":
-			var it iter.Seq[int]
+			var it iter.Seq[T]
+			var items []T
 			if arg(2) != "nil" {
 				l, ok := parseList(arg(2))
 				if !ok {
 					res = "?"
 					return
 				}
-				it = slices.Values(l)
+				items = w.es(l)
+				it = slices.Values(items)
 			}
 			r := mapset.Range(it) // panics for the nil function: the variable keeps its value
 			vars[i] = r
 			res = returned(vars[i])
+			for x := range items { // what the iterator read from is the caller's
+				items[x] = poison
+			}
 		case "keys":
-			var m map[int]string
+			var m map[T]string
 			var l []int
 			if arg(2) != "nil" {
 				var ok bool
@@ -300,18 +481,26 @@ func runOp(c *mem, vars []set, op string) (nop string, res string) {
 					res = "?"
 					return
 				}
-				m = map[int]string{}
+				m = map[T]string{}
 				for _, x := range l {
-					m[x] = "v"
+					m[w.e(x)] = "v"
 				}
 			}
+			want := len(m)
 			vars[i] = mapset.Keys(m)
 			res = returned(vars[i])
-			if len(m) != len(mapset.New(l...)) || (arg(2) == "nil") != (m == nil) { // the argument map is left alone
+			if len(m) != want || (arg(2) == "nil") != (m == nil) { // the argument map is left alone
 				res += "!"
 			}
+			if m != nil { // ... and is the caller's afterwards: the dump follows
+				m[poison] = "p"
+				for _, x := range l {
+					delete(m, w.e(x))
+					break
+				}
+			}
 		case "values":
-			var m map[int]int
+			var m map[int]T
 			var l []int
 			if arg(2) != "nil" {
 				var ok bool
@@ -320,9 +509,9 @@ func runOp(c *mem, vars []set, op string) (nop string, res string) {
 					res = "?"
 					return
 				}
-				m = map[int]int{}
+				m = map[int]T{}
 				for n, x := range l {
-					m[1000+n] = x
+					m[1000+n] = w.e(x)
 				}
 			}
 			vars[i] = mapset.Values(m)
@@ -330,16 +519,20 @@ func runOp(c *mem, vars []set, op string) (nop string, res string) {
 			if len(m) != len(l) || (arg(2) == "nil") != (m == nil) {
 				res += "!"
 			}
+			for n := range m {
+				m[n] = poison
+			}
 		case "add":
 			l, ok := parseList(arg(2))
 			if !ok {
 				res = "?"
 				return
 			}
-			r := vars[i].Add(l...)
+			items := w.es(l)
+			r := vars[i].Add(items...)
 			res = returned(r)
-			for x := range l {
-				l[x] = sentinel
+			for x := range items {
+				items[x] = poison
 			}
 		case "addall":
 			j, ok := idx(arg(2))
@@ -355,8 +548,12 @@ func runOp(c *mem, vars []set, op string) (nop string, res string) {
 				res = "?"
 				return
 			}
-			r := vars[i].Remove(l...)
+			items := w.es(l)
+			r := vars[i].Remove(items...)
 			res = returned(r)
+			for x := range items {
+				items[x] = poison
+			}
 		case "rmall":
 			j, ok := idx(arg(2))
 			if !ok {
@@ -369,7 +566,7 @@ func runOp(c *mem, vars []set, op string) (nop string, res string) {
 			r := vars[i].Clear()
 			res = returned(r)
 		case "pop":
-			x := vars[i].Pop()
+			x := w.d(vars[i].Pop())
 			res = "e" + strconv.Itoa(x)
 			nop = "pop:" + p[1] + ":" + strconv.Itoa(x)
 		case "has":
@@ -378,21 +575,34 @@ func runOp(c *mem, vars []set, op string) (nop string, res string) {
 				res = "?"
 				return
 			}
-			res = "b" + tr.B(vars[i].Has(x))
+			res = "b" + tr.B(vars[i].Has(w.e(x)))
+		case "hasd":
+			l, ok := parseList(arg(2))
+			if !ok {
+				res = "?"
+				return
+			}
+			var yes []int
+			for _, x := range l {
+				if vars[i].Has(w.e(x)) {
+					yes = append(yes, x)
+				}
+			}
+			res = "h" + strconv.Itoa(len(yes)) + ":" + digest(yes)
 		case "hasall":
 			l, ok := parseList(arg(2))
 			if !ok {
 				res = "?"
 				return
 			}
-			res = "b" + tr.B(vars[i].HasAll(l...))
+			res = "b" + tr.B(vars[i].HasAll(w.es(l)...))
 		case "hasany":
 			l, ok := parseList(arg(2))
 			if !ok {
 				res = "?"
 				return
 			}
-			res = "b" + tr.B(vars[i].HasAny(l...))
+			res = "b" + tr.B(vars[i].HasAny(w.es(l)...))
 		case "len":
 			res = "i" + strconv.Itoa(vars[i].Len())
 		case "empty":
@@ -415,36 +625,54 @@ func runOp(c *mem, vars []set, op string) (nop string, res string) {
 			res = "b" + tr.B(b)
 		case "slice":
 			r := vars[i].Slice()
-			nop = "slice:" + p[1] + ":" + tr.Ints(r)
-			s := slices.Clone(r)
+			rc := w.ds(r)
+			s := slices.Clone(rc)
 			sort.Ints(s)
-			res = "l" + tr.B(r != nil) + ":.:" + tr.Ints(s)
-			for x := range r { // the result is the caller's: overwrite it, the dump follows
-				r[x] = sentinel
+			if w.scale && len(rc) > digestOver {
+				nop = "slice:" + p[1] + ":#" // the order is not listed: the result is compared sorted
+			} else {
+				nop = "slice:" + p[1] + ":" + tr.Ints(rc)
 			}
-		case "append":
-			var vs []int
+			res = "l" + tr.B(r != nil) + ":.:" + w.ints(s)
+			for x := range r { // the result is the caller's: overwrite it, the dump follows
+				r[x] = poison
+			}
+		case "append", "appendf":
+			var vs []T
+			var l []int
 			if arg(2) != "n" {
-				l, ok := parseList(arg(2))
+				var ok bool
+				l, ok = parseList(arg(2))
 				if !ok {
 					res = "?"
 					return
 				}
-				vs = make([]int, len(l), len(l)+2) // room for two: both the in-place and the reallocating path occur
-				copy(vs, l)
+				room := 2 // room for two: both the in-place and the reallocating path occur
+				if p[0] == "appendf" {
+					room = len(vars[i]) // "if cap(vs) >= len(s) this will not allocate"
+				}
+				vs = make([]T, len(l), len(l)+room)
+				copy(vs, w.es(l))
 			}
 			n := len(vs)
 			r := vars[i].Append(vs)
 			if len(r) < n {
-				res = "l" + tr.B(r != nil) + ":short:" + tr.Ints(r)
+				res = "l" + tr.B(r != nil) + ":short:" + tr.Ints(w.ds(r))
 				return
 			}
-			nop = "append:" + p[1] + ":" + arg(2) + ":" + tr.Ints(r[n:])
-			rest := slices.Clone(r[n:])
+			rest := w.ds(r[n:])
+			if w.scale && len(rest) > digestOver {
+				nop = p[0] + ":" + p[1] + ":" + arg(2) + ":#"
+			} else {
+				nop = p[0] + ":" + p[1] + ":" + arg(2) + ":" + tr.Ints(rest)
+			}
 			sort.Ints(rest)
-			res = "l" + tr.B(r != nil) + ":" + tr.Ints(r[:n]) + ":" + tr.Ints(rest)
+			res = "l" + tr.B(r != nil) + ":" + tr.Ints(w.ds(r[:n])) + ":" + w.ints(rest)
 			for x := range r {
-				r[x] = sentinel
+				r[x] = poison
+			}
+			for x := range vs {
+				vs[x] = poison
 			}
 		default:
 			res = "?"
@@ -708,7 +936,7 @@ func (g *gen) history() {
 	g.emit(fmt.Sprintf("H %d %s", k, strings.Join(ops, ";")), true, tags...)
 }
 
-const rule = "C18: (identity of every returned map by address, relative to the variables before the call, and which variables share a map, are part of every output) every binary operation (AddAll, RemoveAll, Intersects, IsSubset, Equals, Intersect into a third/the first/the second variable) on every ordered pair of operands from {nil} + the 16 subsets of {0..3}, each also followed by mutations of result and argument (aliasing poison); every unary operation and every self-application (s op s, also followed by reads and writes) on the 17 operands; degenerate arguments (no items, the nil iterator function, nil maps, negative and huge size hints); big sets of 9-130 (thorough: -300) elements with self-application, draining by Pop and overlapping operands; HasAll/HasAny/Add/Remove with every item list to length 2 (quick) / 3 (thorough) over {0..4}; New/Range/Keys/Values on every list to length 3; Intersect on every triple over {nil} + subsets of {0,1,2}; random histories of 5-40 operations over 2-4 variables and universes of 3-7 elements, with variables reset to nil, cleared and drained by Pop.  After every operation every variable is dumped (nil-ness, Len, IsEmpty, Has over 0..7, sorted keys).  The element Pop returned and the order Slice/Append produced are recorded as oracle inputs.  Every case is non-trivial; distinct = distinct recorded inputs."
+const rule = "C18: (identity of every returned map by address, relative to the variables before the call, and which variables share a map, are part of every output) every binary operation (AddAll, RemoveAll, Intersects, IsSubset, Equals, Intersect into a third/the first/the second variable) on every ordered pair of operands from {nil} + the 16 subsets of {0..3}, each also followed by mutations of result and argument (aliasing poison); every unary operation and every self-application (s op s, also followed by reads and writes) on the 17 operands; degenerate arguments (no items, the nil iterator function, nil maps, negative and huge size hints); big sets of 9-130 (thorough: -300) elements with self-application, draining by Pop and overlapping operands; HasAll/HasAny/Add/Remove with every item list to length 2 (quick) / 3 (thorough) over {0..4}; New/Range/Keys/Values on every list to length 3; Intersect on every triple over {nil} + subsets of {0,1,2}; random histories of 5-40 operations over 2-4 variables and universes of 3-7 elements, with variables reset to nil, cleared and drained by Pop.  After every operation every variable is dumped (nil-ness, Len, IsEmpty, Has over 0..7, sorted keys).  The element Pop returned and the order Slice/Append produced are recorded as oracle inputs.  Round 3, scale stream (kinds Si Sx Ss St = int / extreme int / string / struct elements, codes in the trace, code 0 = the zero value of the type and a member of almost every set): sets of 2^k-1, 2^k, 2^k+1 members for k = 1..12 and a few random large sizes: every observer and variadic call on the big set (no items, repeats, more arguments than members, non-members; Has asked about every element of the universe), the zero value removed / re-added / popped, every self-application, constructors from sequences with repeats (argument maps and slices poisoned afterwards), sets emptied by Remove or Clear and used again, every binary operation on (nil, empty, emptied by Remove, cleared, singleton, big) x the same with results and operands mutated afterwards, equal big operands and one-element differences, Pop until empty and beyond (to 1025 members in the quick tier, 2049 in the thorough tier), grow - drain to 1/8 by Pop or Remove - observe - regrow, random histories over runs of about 2^k items; lists of more than 64 codes in the output are digests of the SORTED codes.  Every case is non-trivial; distinct = distinct recorded inputs."
 
 func main() {
 	o := tr.ParseFlags()
@@ -721,6 +949,7 @@ func main() {
 	} else if o.Prop == "C18" || o.Prop == "" {
 		g.exhaustive()
 		g.big()
+		g.scale()
 		for i := 0; i < o.Scale(4000, 250000); i++ {
 			g.history()
 		}
